@@ -724,3 +724,202 @@ pub fn check_c07(h: &mut Hist, ctx: &mut Ctx, paused: bool, exhaustive_upto: u32
         }
     }
 }
+
+// ------------------------------------------------------------------------------------ C20
+
+/// Structural invariant of the bookkeeping for unstable blocks, recomputed from the model's live tree.
+pub fn check_c20(h: &mut Hist, ctx: &mut Ctx) {
+    use std::collections::{BTreeMap, BTreeSet};
+    let bk = world::bookkeeping();
+    let to_h = |b: &ic_btc_types::BlockHash| -> H {
+        let mut a = [0u8; 32];
+        a.copy_from_slice(b.as_bytes());
+        a
+    };
+    let live: Vec<H> = h.model.live_preorder();
+    let live_set: BTreeSet<H> = live.iter().cloned().collect();
+    ctx.cov.count("c20_snapshots");
+    let mut problems: Vec<String> = vec![];
+
+    let tree: Vec<H> = bk.tree.iter().map(|n| to_h(&n.0)).collect();
+    let tree_set: BTreeSet<H> = tree.iter().cloned().collect();
+    if tree_set != live_set || tree.len() != live.len() {
+        problems.push(format!("tree holds {} blocks, {} are live", tree.len(), live.len()));
+    }
+    let cache_set: BTreeSet<H> = bk.block_cache_keys.iter().map(to_h).collect();
+    if cache_set != live_set {
+        let extra = cache_set.difference(&live_set).count();
+        let missing = live_set.difference(&cache_set).count();
+        problems.push(format!("block-body cache: {} leaked, {} missing", extra, missing));
+    }
+    for (name, m) in [("added", &bk.added), ("removed", &bk.removed)] {
+        let keys: BTreeSet<H> = m.iter().map(|(b, _)| to_h(b)).collect();
+        if keys != live_set {
+            problems.push(format!(
+                "{}-outpoints map: {} leaked, {} missing",
+                name,
+                keys.difference(&live_set).count(),
+                live_set.difference(&keys).count()
+            ));
+        }
+    }
+    // expected reference counts and per-block address deltas, recomputed from the live blocks
+    let script_to_addr: BTreeMap<Vec<u8>, String> =
+        h.uni.addrs.iter().map(|a| (a.script.clone(), a.text.clone())).collect();
+    let mut expect_count: BTreeMap<(H, u32), u32> = BTreeMap::new();
+    let mut expect_txout: BTreeMap<(H, u32), (u64, Vec<u8>)> = BTreeMap::new();
+    let mut max_ref = 0u32;
+    for b in live.iter() {
+        let blk = h.model.blocks[b].clone();
+        let parent_ledger = if *b == h.model.anchor {
+            h.model.stable_ledger.clone()
+        } else {
+            h.model.ledger_at(&blk.parent)
+        };
+        let mut local: BTreeMap<(H, u32), (u64, Vec<u8>)> = BTreeMap::new();
+        let mut exp_added: BTreeMap<String, BTreeSet<(H, u32)>> = BTreeMap::new();
+        let mut exp_removed: BTreeMap<String, BTreeSet<(H, u32)>> = BTreeMap::new();
+        for tx in &blk.txs {
+            if !tx.is_coinbase() {
+                for i in &tx.inputs {
+                    *expect_count.entry(*i).or_insert(0) += 1;
+                    let src = local
+                        .get(i)
+                        .cloned()
+                        .or_else(|| parent_ledger.get(i).map(|u| (u.value, u.script.as_ref().clone())));
+                    if let Some((v, s)) = src {
+                        if let Some(a) = script_to_addr.get(&s) {
+                            exp_removed.entry(a.clone()).or_default().insert(*i);
+                        }
+                        expect_txout.insert(*i, (v, s));
+                    }
+                }
+            }
+            for (vout, (v, s)) in tx.outputs.iter().enumerate() {
+                let k = (tx.txid, vout as u32);
+                *expect_count.entry(k).or_insert(0) += 1;
+                local.insert(k, (*v, s.as_ref().clone()));
+                expect_txout.insert(k, (*v, s.as_ref().clone()));
+                if let Some(a) = script_to_addr.get(s.as_ref()) {
+                    exp_added.entry(a.clone()).or_default().insert(k);
+                }
+            }
+        }
+        // compare per-block deltas
+        for (name, m, exp) in [("added", &bk.added, &exp_added), ("removed", &bk.removed, &exp_removed)] {
+            if let Some((_, lists)) = m.iter().find(|(bh, _)| to_h(bh) == *b) {
+                let got: BTreeMap<String, BTreeSet<(H, u32)>> = lists
+                    .iter()
+                    .map(|(a, ops)| {
+                        (
+                            a.clone(),
+                            ops.iter()
+                                .map(|o| {
+                                    let mut t = [0u8; 32];
+                                    t.copy_from_slice(o.txid.as_bytes());
+                                    (t, o.vout)
+                                })
+                                .collect(),
+                        )
+                    })
+                    .filter(|(_, s): &(String, BTreeSet<(H, u32)>)| !s.is_empty())
+                    .collect();
+                if &got != exp {
+                    problems.push(format!("{}-outpoints of block {} differ from the block's content", name, short(b)));
+                }
+            }
+        }
+    }
+    let mut got_count: BTreeMap<(H, u32), u32> = BTreeMap::new();
+    for (o, value, script, _height, count) in bk.tx_outs.iter() {
+        let mut t = [0u8; 32];
+        t.copy_from_slice(o.txid.as_bytes());
+        let k = (t, o.vout);
+        got_count.insert(k, *count);
+        max_ref = max_ref.max(*count);
+        if *count == 0 {
+            problems.push("cached tx out with reference count 0".into());
+        }
+        if let Some((v, s)) = expect_txout.get(&k) {
+            if v != value || s != script {
+                problems.push("cached tx out has wrong value or script".into());
+            }
+        }
+    }
+    if got_count != expect_count {
+        let leaked = got_count.keys().filter(|k| !expect_count.contains_key(*k)).count();
+        let missing = expect_count.keys().filter(|k| !got_count.contains_key(*k)).count();
+        let wrong = got_count
+            .iter()
+            .filter(|(k, c)| expect_count.get(*k).map(|e| e != *c).unwrap_or(false))
+            .count();
+        problems.push(format!(
+            "cached tx outs: {} unreferenced (leaked), {} missing, {} with a wrong reference count",
+            leaked, missing, wrong
+        ));
+    }
+    ctx.cov.max("max_refcount_seen", max_ref as u64);
+    if max_ref > 2 {
+        ctx.cov.count("c20_snapshots_with_outpoints_shared_by_forks");
+    }
+    // announced headers
+    let sh = h.model.stable_height();
+    let by_hash: BTreeSet<H> = bk.next_by_hash.iter().map(|(b, _, _)| to_h(b)).collect();
+    let by_height: BTreeSet<H> = bk.next_by_height.iter().flat_map(|(_, v)| v.iter().map(to_h)).collect();
+    if by_hash != by_height {
+        problems.push("announced-header indexes disagree".into());
+    }
+    for (b, height, _) in bk.next_by_hash.iter() {
+        if live_set.contains(&to_h(b)) {
+            problems.push("announced header kept although its block arrived".into());
+        }
+        if *height <= sh {
+            problems.push(format!("announced header at height {} kept although the stable height is {}", height, sh));
+        }
+    }
+    ctx.cov.add("c20_announced_headers_seen", bk.next_by_hash.len() as u64);
+    // cached tip depths
+    let mut tips: Vec<usize> = h.model.leaf_paths().iter().map(|(p, _)| p.len()).collect();
+    tips.sort();
+    let mut got_tips = bk.tip_depths_cache.clone();
+    got_tips.sort();
+    if tips != got_tips {
+        problems.push(format!("cached tip depths {:?}, tree has {:?}", got_tips, tips));
+    }
+    // per-block cached metrics
+    for (b, _, _, fee_rates, utxo_delta) in bk.tree.iter() {
+        let hh = to_h(b);
+        if !h.model.blocks.contains_key(&hh) || !live_set.contains(&hh) {
+            continue;
+        }
+        if let Some(fr) = fee_rates {
+            let want = h.model.fee_rates_of(&hh);
+            if &want != fr {
+                problems.push(format!("cached fee rates of block {} differ from its transactions", short(&hh)));
+            }
+            let blk = &h.model.blocks[&hh];
+            let d: i64 = blk
+                .txs
+                .iter()
+                .map(|t| t.outputs.len() as i64 - if t.is_coinbase() { 0 } else { t.inputs.len() as i64 })
+                .sum();
+            if d != *utxo_delta {
+                problems.push(format!("cached utxo delta of block {} is {}, its transactions give {}", short(&hh), utxo_delta, d));
+            }
+        }
+    }
+    let forks = h.model.leaf_paths().len();
+    ctx.cov.eval(Some(state_fp(h, &format!("c20|{}|{}", forks, bk.tx_outs.len()))));
+    if !problems.is_empty() {
+        problems.dedup();
+        ctx.violation(
+            format!("bookkeeping of unstable blocks is not exact: {}", problems.join("; ")),
+            None,
+            json!({"log": h.log, "tree": format!("{:?}", h.shape_sig())}),
+        );
+    }
+    if ctx.cov.samples.len() < 3 && forks > 1 {
+        ctx.cov.sample(json!({"live_blocks": live.len(), "forks": forks, "cached_tx_outs": bk.tx_outs.len(), "max_refcount": max_ref,
+            "tip_depths": got_tips, "tree": format!("{:?}", h.shape_sig())}));
+    }
+}
